@@ -515,7 +515,7 @@ func build(tier string) []explore.Scenario {
 							// first thorough run flagged it; such triples keep the finalizer-protected start only.
 							continue
 						}
-						out = append(out, scenario(ops, in, false, []int{0, 1, 2}))
+						out = append(out, scenario(ops, in, false, []int{0, 1, 2, 3, -1}))
 					}
 				}
 			}
